@@ -885,7 +885,17 @@ def multi_obligations(pid, tier, seed):
                             args=[('size', 'int'), ('layout', 'int'), ('spread', 'int'), ('nb', 'int'), ('dup', 'bool')],
                             pre=['0 <= size < 7' if impl == 'c' else '0 <= size < 4', '0 <= layout < 5', '0 <= spread < 4', '0 <= nb < 4'],
                             params=dict(family=fam, impl=impl), timeout=t * 2))
+    # engine E2: the real sorters.c kernels from clang IR on fully symbolic machine words
+    for fam in MULTI_QUICK:
+        plan = [('uniq', (3, 5)), ('uniq_copy', (2, 4)), ('quicksort', (3, 4)), ('sort_int_nodups', (3,))] if quick else \
+               [('uniq', (1, 2, 3, 4, 5, 6, 7)), ('uniq_copy', (1, 2, 3, 4, 5, 6)), ('quicksort', (1, 2, 3, 4, 5)), ('sort_int_nodups', (1, 2, 3, 4))]
+        for kernel, ns in plan:
+            for n in ns:
+                obs.append(dict(id='%s/ir/%s/%s/n%d' % (pid, fam, kernel, n), engine='llsym', mod='h_kernel', fn='k_native', nk=0,
+                                args=[('x%d' % i, 'int') for i in range(n)], params=dict(family=fam, kernel=kernel, n=n), timeout=t))
     return {'obligations': obs, 'bounds': {'python_symbolic_keys': '<= 3 (quick) / 4 integers anywhere in the family range',
+                                           'ir_kernels': 'uniq (in place and copying), quicksort (insertion-sort branch: n <= 25), sort_int_nodups '
+                                           '(quicksort branch: n <= 800) of sorters.c on n fully symbolic 32/64-bit words, n as listed in the obligation ids',
                                            'c_sizes': [0, 3, 40, 799, 801, 900, 2000], 'families': MULTI_QUICK if quick else MULTI_ALL}}
 
 
@@ -1193,8 +1203,15 @@ PROPS = {
                     'be the sorted duplicate-free union, every member found, range query exact. (2) Compiled multiunion (and the '
                     'Python one on the smaller sizes): total size on both sides of the 800-element switch, spacing of the bulk keys '
                     '(which bytes vary, hence which radix passes run), the boundary keys mixed in (extremes, top-bit keys of the '
-                    'unsigned families, byte boundaries), duplicates and the operand layout are solver-chosen selectors.',
-        functions=['_XXBTree.so: multiunion_m, bucket_append, sort_int_nodups, radixsort_int, quicksort, uniq', 'BTrees._base.multiunion, Set.update'],
+                    'unsigned families, byte boundaries), duplicates and the operand layout are solver-chosen selectors. (3) Engine E2: the '
+                    'repository\'s sorters.c, compiled to LLVM IR by clang with the family\'s key type, is executed by a symbolic IR '
+                    'interpreter on n FULLY SYMBOLIC machine words (z3 bit-vectors): uniq (in place and copying), quicksort and '
+                    'sort_int_nodups return, on every feasible path, the strictly ascending duplicate-free set / the sorted permutation '
+                    'of their input in the family\'s own (signed or unsigned) order; no assert() of the source is reachable; every '
+                    'load/store stays inside live memory. The interpreter is validated against the natively compiled kernels on '
+                    'random and boundary vectors before every obligation.',
+        functions=['_XXBTree.so: multiunion_m, bucket_append, sort_int_nodups, radixsort_int, quicksort, uniq', 'BTrees._base.multiunion, Set.update',
+                   'sorters.c as LLVM IR (engine E2): uniq, quicksort, sort_int_nodups for int / unsigned int / long long / unsigned long long keys'],
         stubs=['struct.Struct(fmt).pack contract stub for the Python side'],
         assumptions=['compiled code: keys are concrete (unboxed in C); the selectors enumerate sizes / spacings / boundary mixes'],
     ),
